@@ -934,6 +934,12 @@ func (fc *funcContext) delegatedCall(expr *ast.CallExpr) (callable *expression, 
 	case *ast.SelectorExpr:
 		isJs = typesutil.IsJsPackage(fc.pkgCtx.Uses[fun.Sel].Pkg())
 	}
+	if id, ok := expr.Fun.(*ast.Ident); ok && isBuiltin && id.Name == "recover" {
+		// recover stops a panic only when it is called BY a deferred function.
+		// When it is itself the deferred (or go'd) function it returns nil and
+		// the panic continues.
+		return fc.formatExpr("function() {}"), fc.formatExpr("[]")
+	}
 	sig := typesutil.Signature{Sig: fc.typeOf(expr.Fun).Underlying().(*types.Signature)}
 	args := fc.translateArgs(sig.Sig, expr.Args, expr.Ellipsis.IsValid())
 
